@@ -53,8 +53,8 @@ Line(n, e) ==
       inScope == post.length + 20 <= 65535 + 20 /\ Len(post.raw) <= 65555
       canonLineage == pre.raw = <<>> \/ op.op \in {"build", "encode"} \/ IsCanonical(pre.raw)
   IN
-  /\ Require(e.perr = "" \/ SubSeq(e.perr, 1, 4) = "err:", n, "panic", [op |-> op.op, perr |-> e.perr])
-  /\ (e.perr = "" /\ Building(op) /\ inScope) =>
+  /\ Require(e.perr = "", n, "panic", [op |-> op.op, perr |-> e.perr])
+  /\ (e.perr = "" /\ ~e.refused /\ Building(op) /\ inScope) =>
         /\ Require(StructMatchesWireX(post, canonLineage), n, "struct-differs-from-wire",
                    [op |-> op.op, canonical_history |-> canonLineage, rawlen |-> Len(post.raw), length |-> post.length,
                     parse_ok |-> Parse(post.raw).ok])
@@ -68,11 +68,16 @@ Line(n, e) ==
                     attrs |-> Len(post.attrs)])
         /\ (op.op = "encode" /\ StructMatchesWireX(pre, FALSE)) =>
               Require(post.raw = CanonOf(pre.raw), n, "decode-then-encode-not-canonical", <<>>)
-  /\ (e.perr = "" /\ ~Building(op)) =>
+  \* an operation that reported an error (a refused setter) must leave a coherent message behind as well
+  /\ (e.refused /\ Building(op) /\ Len(pre.raw) >= 20) =>
+        /\ Require(StructMatchesWireX(post, canonLineage), n, "struct-differs-from-wire-after-refused-operation",
+                   [op |-> op.op, rawlen |-> Len(post.raw), length |-> post.length, header_length |-> Declared(post.raw)])
+        /\ Expect(SameVisible(pre, post), n, "refused-operation-changed-message", [op |-> op.op])
+  /\ (e.perr = "" /\ ~e.refused /\ ~Building(op)) =>
         \* encode-then-decode is the identity on content: the decoded struct is the parse of the data
         LET p == Parse(op.data) IN
         Require(p.ok /\ StructMatchesWireX(post, FALSE) /\ post.raw = op.data, n, "decode-differs-from-parse", <<>>)
-  /\ (e.perr = "" /\ e.pre.spare_ok /\ e.post.spare_ok) =>
+  /\ (e.perr = "" /\ ~e.refused /\ e.pre.spare_ok /\ e.post.spare_ok) =>
         LET mo == ModelStep(pre, op) IN
         /\ Expect(SameVisible(mo, post), n, "model-step-visible", [op |-> op.op])
         /\ (e.pre.cap = e.post.cap) => Expect(mo.spare = post.spare, n, "model-step-retained-bytes", [op |-> op.op])
